@@ -113,7 +113,11 @@ class Recorder:
                 # claims (windows are shorter than WRAP), everything else still comes from the data
                 fw = first
                 first = fw + WRAP * int(round((int(wg.iw) * (int(wg.nswin) - int(wg.overlap)) - fw) / WRAP))
-                tok = first + ((tok - fw) % WRAP)
+                # rows of one window follow each other by less than WRAP samples (1 for AP, the decimation ratio for LF): unwrap
+                # cumulatively from the window's first sample, so that windows longer than WRAP are read correctly too
+                if tok.size:
+                    steps = np.r_[(tok[0] - fw) % WRAP, np.diff(tok) % WRAP]
+                    tok = first + np.cumsum(steps)
             tok = tok.tolist()
             self.events.append({"etype": etype, "iw": int(wg.iw), "nwin": int(wg.nwin), "len": int(chunk.shape[1]),
                                 "first": first, "last": min(first + int(wg.nswin), int(wg.ns)), "tok": tok})
